@@ -39,6 +39,86 @@ func genVarintValue(r *Rng, i int) uint64 {
 	}
 }
 
+// c24GenDst picks the destination slice of an Append/AppendWithLen case: its visible bytes
+// (pre) and how its backing array looks beyond len:
+//
+//	nil          the nil slice (pre empty)
+//	exact        len == cap
+//	zero:<k>     k bytes of zeroed spare capacity
+//	ff:<k>       k bytes of spare capacity, all 0xff
+//	rnd:<hex>    spare capacity holding exactly these bytes
+//	scr:<v>:<w>  a scratch buffer of capacity len(pre)+24 that held pre ++ AppendWithLen(v, w)
+//	             ++ 0xa5.. and was reset with b = b[:len(pre)]
+func c24GenDst(r *Rng, i int) ([]byte, string) {
+	pre := r.Bytes(Pick(r, []int{0, 0, 1, 2, 5, 9}))
+	switch r.Intn(8) {
+	case 0:
+		return nil, "nil"
+	case 1:
+		return pre, "exact"
+	case 2:
+		return pre, fmt.Sprintf("zero:%d", Pick(r, []int{1, 3, 4, 8, 16}))
+	case 3, 4:
+		return pre, fmt.Sprintf("ff:%d", Pick(r, []int{1, 2, 3, 4, 5, 7, 8, 9, 16, 32}))
+	case 5:
+		sp := r.Bytes(Pick(r, []int{1, 2, 4, 6, 8, 12, 20}))
+		for k := range sp {
+			if sp[k] == 0 {
+				sp[k] = 0x5a
+			}
+		}
+		return pre, "rnd:" + hx(sp)
+	default:
+		v := genVarintValue(r, 1000) >> 2
+		return pre, fmt.Sprintf("scr:%d:%d", v|1<<40|0x7f7f7f, 8)
+	}
+}
+
+func c24MakeDst(pre []byte, dst string) []byte {
+	f := strings.Split(dst, ":")
+	n := func(s string) int { v, _ := strconv.Atoi(s); return v }
+	switch f[0] {
+	case "", "nil":
+		if len(pre) == 0 {
+			return nil
+		}
+		b := make([]byte, len(pre))
+		copy(b, pre)
+		return b
+	case "exact":
+		b := make([]byte, len(pre))
+		copy(b, pre)
+		return b[:len(pre):len(pre)]
+	case "zero":
+		b := make([]byte, len(pre), len(pre)+n(f[1]))
+		copy(b, pre)
+		return b
+	case "ff":
+		arr := make([]byte, len(pre)+n(f[1]))
+		for k := range arr {
+			arr[k] = 0xff
+		}
+		copy(arr, pre)
+		return arr[:len(pre):len(arr)]
+	case "rnd":
+		sp := unhex(f[1])
+		arr := make([]byte, len(pre)+len(sp))
+		copy(arr, pre)
+		copy(arr[len(pre):], sp)
+		return arr[:len(pre):len(arr)]
+	case "scr":
+		v, _ := strconv.ParseUint(f[1], 10, 64)
+		arr := make([]byte, len(pre)+24)
+		for k := range arr {
+			arr[k] = 0xa5
+		}
+		b := append(arr[:0], pre...)
+		b = tls.VerifVarintAppendWithLen(b, v, int64(n(f[2]))) // the earlier, longer encoding
+		return b[:len(pre)]                                    // reset for reuse
+	}
+	panic("bad dst " + dst)
+}
+
 func catchPanic(f func() string) (s string) {
 	defer func() {
 		if p := recover(); p != nil {
@@ -55,20 +135,30 @@ func init() {
 			x := genVarintValue(r, i)
 			w := Pick(r, []int{1, 2, 4, 8, 1, 2, 4, 8, 0, 3, 5, 16})
 			tail := r.Bytes(r.Intn(3))
-			return fmt.Sprintf("x=%d w=%d tail=%s", x, w, hx(tail))
+			pre, dst := c24GenDst(r, i)
+			return fmt.Sprintf("x=%d w=%d tail=%s pre=%s dst=%s", x, w, hx(tail), hx(pre), dst)
 		},
 		Exec: func(in KV) string {
 			x := in.U64("x")
 			w := in.Int("w")
 			tail := in.Bytes("tail")
-			app := catchPanic(func() string { return hx(tls.VerifVarintAppend(nil, x)) })
+			pre := in.Bytes("pre")
+			dst := in["dst"]
+			// every call gets its own destination slice, built as the case describes (visible
+			// bytes = pre; what lies between len and cap is the point of the dst dimension)
+			app := catchPanic(func() string { return hx(tls.VerifVarintAppend(c24MakeDst(pre, dst), x)) })
 			ln := catchPanic(func() string { return fmt.Sprint(tls.VerifVarintLen(x)) })
-			wl := catchPanic(func() string { return hx(tls.VerifVarintAppendWithLen(nil, x, int64(w))) })
-			rd := func(enc string) string {
-				if enc == "panic" {
+			wl := catchPanic(func() string { return hx(tls.VerifVarintAppendWithLen(c24MakeDst(pre, dst), x, int64(w))) })
+			rd := func(res string) string {
+				if res == "panic" {
 					return "na"
 				}
-				rdr := bytes.NewReader(append(unhex(enc), tail...))
+				full := unhex(res)
+				if len(full) < len(pre) {
+					return "short"
+				}
+				// decode what was appended after the destination's visible bytes
+				rdr := bytes.NewReader(append(append([]byte(nil), full[len(pre):]...), tail...))
 				v, err := tls.VerifVarintRead(rdr)
 				if err != nil {
 					return "eof"
@@ -98,6 +188,7 @@ func init() {
 		},
 	})
 	register(&Family{Name: "tps", Gen: genTPs, Exec: execTPs})
+	register(&Family{Name: "tps_seq", Gen: c24GenTPSeq, Exec: c24ExecTPSeq})
 }
 
 var typedVarintIDs = []uint64{1, 3, 4, 5, 6, 7, 8, 9, 11, 14, 32}
@@ -231,4 +322,145 @@ func execTPs(in KV) string {
 		e = "err"
 	}
 	return fmt.Sprintf("marshal=%s raw=%s ext=%s:%s", m, joinList(raw), e, hx(buf[:n]))
+}
+
+// ---- tps_seq: several parameter lists marshalled one after the other; every result is held
+// and inspected only after all of them were produced (a result must not depend on later calls).
+//
+//	mode=marshal  r_i = l_i.Marshal() in the order `make`; then hex(r_i) in the order `look`
+//	mode=ext      e_i.Len() in the order `make` (Len caches the body); then e_i.Read in the order `look`
+//	mode=mixed    odd positions through an extension object, even ones through Marshal
+//
+// output per list i: now<i> = the bytes right after they were produced, held<i> = the same slice
+// (or the extension body) after everything else was produced, raw<i> = what ID()/Value() report.
+
+func c24GenTPNoPanic(r *Rng) string {
+	switch r.Intn(8) {
+	case 0, 1:
+		return fmt.Sprintf("v%d:%d", Pick(r, typedVarintIDs), (genVarintValue(r, 1000+r.Intn(1000))>>uint(r.Intn(3)))>>2)
+	case 2:
+		return Pick(r, []string{"e12", "e10930"})
+	case 3:
+		return fmt.Sprintf("b%d:%s", Pick(r, []int{15, 21}), hx(r.Bytes(Pick(r, []int{0, 1, 8, 20, 63, 64, 65, 300}))))
+	case 4:
+		var av []string
+		for k := r.Intn(4); k > 0; k-- {
+			av = append(av, fmt.Sprint(Pick(r, []uint64{0, 1, 0x6b3343cf, uint64(r.U64() & 0xffffffff)})))
+		}
+		a := strings.Join(av, ";")
+		if a == "" {
+			a = "-"
+		}
+		return fmt.Sprintf("vi%d:%d:%s", r.Intn(2), r.U64()&0xffffffff, a)
+	case 5:
+		id := 27 + 31*(r.U64()%148764065110560900)
+		return fmt.Sprintf("g:%d:%s:0", id, hx(r.Bytes(1+r.Intn(20))))
+	case 6:
+		return fmt.Sprintf("g:%d:-:%d", Pick(r, []uint64{0, 26, 28, 58}), r.Intn(40))
+	default:
+		id := genVarintValue(r, 1000)>>2 | 1
+		return fmt.Sprintf("f:%d:%s", id, hx(r.Bytes(Pick(r, []int{0, 1, 2, 63, 64, 100, 400}))))
+	}
+}
+
+func c24Perm(r *Rng, k int) string {
+	p := make([]int, k)
+	for i := range p {
+		p[i] = i
+	}
+	for i := k - 1; i > 0; i-- {
+		j := r.Intn(i + 1)
+		p[i], p[j] = p[j], p[i]
+	}
+	ss := make([]string, k)
+	for i, x := range p {
+		ss[i] = fmt.Sprint(x)
+	}
+	return strings.Join(ss, ",")
+}
+
+func c24GenTPSeq(r *Rng, i int, tier string) string {
+	k := 2 + r.Intn(3)
+	parts := []string{"mode=" + []string{"marshal", "ext", "mixed"}[i%3], fmt.Sprintf("k=%d", k)}
+	for j := 0; j < k; j++ {
+		n := 1 + r.Intn(6)
+		if r.Intn(9) == 0 {
+			n = 0
+		}
+		var ps []string
+		for ; n > 0; n-- {
+			ps = append(ps, c24GenTPNoPanic(r))
+		}
+		parts = append(parts, fmt.Sprintf("l%d=%s", j, joinList(ps)))
+	}
+	mk := "0,1,2,3"[:2*k-1]
+	if r.Intn(3) == 0 {
+		mk = c24Perm(r, k)
+	}
+	parts = append(parts, "make="+mk, "look="+c24Perm(r, k))
+	return strings.Join(parts, " ")
+}
+
+func c24ExecTPSeq(in KV) string {
+	k := in.Int("k")
+	mode := in["mode"]
+	lists := make([]tls.TransportParameters, k)
+	for i := range lists {
+		for _, s := range splitList(in[fmt.Sprintf("l%d", i)]) {
+			lists[i] = append(lists[i], buildTP(s))
+		}
+	}
+	order := func(key string) []int {
+		var o []int
+		for _, s := range splitList(in[key]) {
+			v, err := strconv.Atoi(s)
+			if err != nil || v < 0 || v >= k {
+				panic("bad order " + in[key])
+			}
+			o = append(o, v)
+		}
+		return o
+	}
+	viaExt := func(pos int) bool { return mode == "ext" || (mode == "mixed" && pos%2 == 1) }
+	held := make([][]byte, k) // the slices Marshal returned, NOT copied
+	exts := make([]*tls.QUICTransportParametersExtension, k)
+	now := make([]string, k)
+	after := make([]string, k)
+	for i := range now {
+		now[i], after[i] = "none", "none"
+	}
+	// phase 1: produce
+	for pos, i := range order("make") {
+		if viaExt(pos) {
+			exts[i] = &tls.QUICTransportParametersExtension{TransportParameters: lists[i]}
+			now[i] = fmt.Sprintf("len:%d", exts[i].Len())
+		} else {
+			held[i] = lists[i].Marshal()
+			now[i] = "m:" + hx(held[i])
+		}
+	}
+	// phase 2: inspect what the caller still holds
+	for _, i := range order("look") {
+		switch {
+		case exts[i] != nil:
+			buf := make([]byte, exts[i].Len())
+			n, err := exts[i].Read(buf)
+			e := "ok"
+			if err != nil && err.Error() != "EOF" {
+				e = "err"
+			}
+			after[i] = fmt.Sprintf("x:%s:%s", e, hx(buf[:n]))
+		case now[i] != "none":
+			after[i] = "m:" + hx(held[i])
+		}
+	}
+	var out []string
+	for i := 0; i < k; i++ {
+		var raw []string
+		for _, tp := range lists[i] {
+			raw = append(raw, fmt.Sprintf("%d:%s", tp.ID(), hx(tp.Value())))
+		}
+		out = append(out, fmt.Sprintf("now%d=%s held%d=%s raw%d=%s", i, now[i], i, after[i], i, joinList(raw)))
+	}
+	return strings.Join(out, " ")
 }
